@@ -12,7 +12,7 @@ import vlib
 
 PID = "C01"
 FILES = ["theories/Properties/C01.v", "theories/Properties/C10Typer.v", "theories/Examples/C01Examples.v",
-         "theories/Examples/C01FmtFloat.v", "theories/Examples/C01ChildStore.v"]
+         "theories/Examples/C01FmtFloat.v", "theories/Examples/C01ChildStore.v", "theories/Examples/C01Session.v"]
 
 
 def unhex(h):
@@ -79,6 +79,8 @@ def p_term(p):
         return ("bc", p.next())
     if k == "bs":
         return ("bs", p.next())
+    if k == "nopred":
+        return ("nopred",)
     if k == "not":
         return ("not", p_term(p))
     if k in ("and", "or"):
@@ -122,6 +124,8 @@ def term(t):
         return "empty " + setexpr_term(t[1])
     if k in ("bc", "bs"):
         return k + " " + t[1]
+    if k == "nopred":
+        return "nopred"
     if k == "not":
         return "not " + term(t[1])
     if k in ("and", "or"):
@@ -330,7 +334,7 @@ class Runner:
     def __init__(self, c, harness, model):
         self.c, self.harness, self.model = c, harness, model
         self.n = 0
-        self.budget = 700   # replays available to the shrinker in one run
+        self.budget = 1000  # replays available to the shrinker in one run
 
     def run(self, lines):
         """run both sides on the given case lines; returns (impl lines, model lines)"""
@@ -387,14 +391,15 @@ def ids_text(tok):
     return "[" + ",".join(unhex(x).decode("utf-8", "replace") for x in tok.split(",") if x != "-") + "]"
 
 
-def verdict_t(case, modl):
+def verdict_t(case, modl, how=None):
     """a T line: the answer one scan strategy gave (in the case line), judged by the model with strategy_check.
     returns None (agree) or (kind, text): kind in ids|count|panic|accepted|rejected|model"""
     fm = modl.split()
     if fm[:2] == ["T", "agree"]:
         return None
     tc = case.split()
-    how = "%s%s" % ({"Q": "QueryIds", "C": "QueryWithCursorC"}[tc[3]], "" if tc[4] == "*" else " over a cursor of " + ids_text(tc[4]))
+    if how is None:
+        how = "%s%s" % ({"Q": "QueryIds", "C": "QueryWithCursorC"}[tc[3]], "" if tc[4] == "*" else " over a cursor of " + ids_text(tc[4]))
     order = {"F": "id order", "R": "reverse id order", "A": "sorted by other fields"}[tc[2]]
     why = fm[2] if len(fm) > 2 else "?"
     match = fm[3] if len(fm) > 3 else "-"
@@ -414,7 +419,7 @@ def verdict_t(case, modl):
     if why == "accepted-ids":
         return ("ids", "a filter the typing rules reject is accepted and %s; %s" % (got, want))
     nmatch = len([x for x in match.split(",") if x != "-"])
-    cnt = "" if tc[8] == str(nmatch) else "; the count must be %d" % nmatch
+    cnt = "" if tc[8] in (str(nmatch), "-") else "; the count must be %d" % nmatch
     return ("ids", "%s; %s and skip / limit leave %s of them%s%s" % (got, want, plen, " (exactly the page of that order)" if tc[2] != "A" else "", cnt))
 
 
@@ -454,6 +459,7 @@ def t_line(tc, tt, body_text_of):
         text += " skip " + skip
     if limit != "-":
         text += " limit " + ("none" if limit == "-1" else limit)
+    text = text.strip()     # a query without a predicate starts with its first clause
     return " ".join(["T", tc[1], tc[2], tc[3], tc[4], tc[5], "ok", "-", "-", text.encode("utf-8").hex() or "-", term(("q", body, skip, limit))])
 
 
@@ -464,6 +470,186 @@ def diff_ids_t(case, modl):
     a = set(x for x in tc[7].split(",") if x != "-")
     b = set(x for x in fm[3].split(",") if x != "-")
     return sorted(a ^ b)
+
+
+
+# ------------------------------------------------------------------ sequences of queries (M lines, Ast/Session.v)
+
+MUT_NAMES = {"P": "SetPredicate", "K": "SetSkip", "L": "SetLimit", "A": "AdoptSortFields", "X": "interleaved-query"}
+API_NAMES = {"Q": "QueryIdsC", "C": "QueryWithCursorC", "I": "IterateIds", "N": None}
+
+
+def parse_m(case):
+    """tokens of an M line -> (head tokens 0..9, [mutator token lists], term tokens)"""
+    tc = case.split()
+    n = int(tc[10])
+    pos = 11
+    muts = []
+    for _ in range(n):
+        if tc[pos] == "P":
+            pp = P(tc[pos + 2:])
+            p_term(pp)
+            muts.append(tc[pos:pos + 2 + pp.i])
+            pos += 2 + pp.i
+        else:
+            muts.append(tc[pos:pos + 2])
+            pos += 2
+    return tc[:10], muts, tc[pos:]
+
+
+def m_line(head, muts, tterm):
+    return " ".join(head + [str(len(muts))] + [x for mu in muts for x in mu] + tterm)
+
+
+def mut_text(mu):
+    if mu[0] == "P":
+        return "SetPredicate(%s)" % unhex(mu[1]).decode("utf-8", "replace")
+    if mu[0] == "A":
+        return "AdoptSortFields(%s)" % unhex(mu[1]).decode("utf-8", "replace")
+    if mu[0] == "X":
+        return '[meanwhile another caller: QueryIds("%s")]' % unhex(mu[1]).decode("utf-8", "replace")
+    return "%s(%s)" % (MUT_NAMES[mu[0]], mu[1])
+
+
+def m_text(case):
+    """what the earlier caller of an M line does, in words"""
+    head, muts, _ = parse_m(case)
+    api = API_NAMES[head[3]]
+    how = "" if api is None else ", %s%s" % (api, "" if head[4] == "*" else " over a cursor of " + ids_text(head[4]))
+    return 'Parse("%s")%s%s' % (unhex(head[9]).decode("utf-8", "replace"), "".join(" + " + mut_text(mu) for mu in muts), how)
+
+
+def verdict_m(case, modl):
+    """an M line: the answer an earlier caller got from the query object it refined, judged against the refined query"""
+    fm = modl.split()
+    if fm[:2] == ["M", "agree"]:
+        return None
+    v = verdict_t(case, "T " + " ".join(fm[1:]), how="the refined query object of " + m_text(case))
+    return v
+
+
+def class_key_m(kind, case):
+    """the class of a wrong answer to a refined query object: like a strategy answer (class_key_t); which mutators the
+    caller applied is part of the message, not of the key"""
+    tc = case.split()
+    return "C01:refined-query-%s:%s:%s:%s" % (kind, STORE_KINDS.get(tc[1], "root"), "sorted" if tc[2] == "A" else "id-order",
+                                              {"Q": "entities-bucket", "C": "provided-cursor", "I": "iterate-ids", "N": "not-evaluated"}[tc[3]])
+
+
+def strategy_twin_key(kind, case):
+    """the key under which the same wrong answer shows for a plain query text (T line) - None for IterateIds"""
+    tc = case.split()
+    if tc[3] not in ("Q", "C"):
+        return None
+    return class_key_t(kind, case)
+
+
+def judge_line(case, impl, modl):
+    """verdict of any observation line (Q: impl line; T / M: the answer inside the case line taken in this run)"""
+    if case.startswith("Q "):
+        return verdict(impl, modl)
+    if case.startswith("T "):
+        return verdict_t(case, modl)
+    if case.startswith("M "):
+        return verdict_m(case, modl)
+    return None
+
+
+def seq_lines(history, final):
+    """case lines of a sequence: the (S, D, M) contexts of the earlier callers, then the final (S, D, line); a schema or
+    dataset line equal to the one in force is not repeated; a history entry may come without dataset (d = None)"""
+    out = []
+    cur_s = cur_d = None
+    for (sl, dl, line) in list(history) + [final]:
+        if sl != cur_s:
+            out.append(sl)
+            cur_s, cur_d = sl, None
+        if dl is not None and dl != cur_d:
+            out.append(dl)
+            cur_d = dl
+        out.append(line)
+    return out
+
+
+def history_dependence(rn, sl, dl, case, hist):
+    """Is the failure of `case` (under schema sl, dataset dl) a consequence of the earlier callers `hist` (M lines with
+    their contexts) of the same process?  Returns None when the line fails on its own (or nothing reproduces it),
+    otherwise the minimal history [(sline, dline|None, mline)] after which it fails while it passes alone."""
+    def fails(history):
+        if rn.budget <= 0:
+            return False
+        try:
+            impl, modl = rn.run(seq_lines(history, (sl, dl, case)))
+        except Exception:
+            return False
+        return judge_line(rn.cases[-1], impl[-1], modl[-1]) is not None
+    if not hist or fails([]):
+        return None
+    for known in KNOWN_CULPRITS:
+        if fails(known):
+            return known
+    # the smallest suffix of the history after which the line fails (a refinement that sticks keeps failing when more
+    # history is put in front of it)
+    size, lo = 1, 0
+    while not fails(hist[-size:]):
+        if size >= len(hist):
+            return None
+        lo, size = size, min(len(hist), size * 4)
+    hi = size
+    while hi - lo > 1:
+        mid = (lo + hi) // 2
+        if fails(hist[-mid:]):
+            hi = mid
+        else:
+            lo = mid
+    found = hist[-hi:]
+    # its first caller is needed; mostly it is enough
+    if len(found) > 1 and fails(found[:1]):
+        found = found[:1]
+    i = len(found) - 1
+    tries = 24
+    while i >= 1 and tries > 0:
+        tries -= 1
+        cand = found[:i] + found[i + 1:]
+        if fails(cand):
+            found = cand
+        i -= 1
+    # simpler earlier callers: not evaluated, fewer mutators, without a dataset
+    for k in range(len(found)):
+        s0, d0, m0 = found[k]
+        head, muts, tterm = parse_m(m0)
+        if head[3] != "N":
+            h2 = head[:3] + ["N", "*", head[5], "ok", "-", "-", head[9]]
+            cand = found[:k] + [(s0, d0, m_line(h2, muts, tterm))] + found[k + 1:]
+            if fails(cand):
+                found, head = cand, h2
+        j = 0
+        while j < len(muts) and len(muts) > 1:
+            m2 = muts[:j] + muts[j + 1:]
+            cand = found[:k] + [(s0, d0, m_line(head, m2, tterm))] + found[k + 1:]
+            if fails(cand):
+                found, muts = cand, m2
+            else:
+                j += 1
+        s0, d0, m0 = found[k]
+        cand = found[:k] + [(s0, None, m0)] + found[k + 1:]
+        if fails(cand):
+            found = cand
+    KNOWN_CULPRITS.append(found)
+    return found
+
+
+KNOWN_CULPRITS = []     # minimal histories found in this run: tried first on the next failing line
+
+
+def history_key(history, t):
+    names = set()
+    for (_, _, m0) in history:
+        _, muts, _ = parse_m(m0)
+        names |= set(MUT_NAMES[mu[0]] for mu in muts)
+    body = t[1] if t is not None and t[0] == "q" else t
+    return "C01:answer-depends-on-earlier-query:%s:%s" % ("+".join(sorted(names)) or "evaluation-only",
+                                                          "no-predicate" if body == ("nopred",) else "filter")
 
 
 # ------------------------------------------------------------------ dataset lines
@@ -553,9 +739,10 @@ def diff_ids(impl, modl):
     return sorted(a ^ b)
 
 
-def shrink(rn, sline, dline, store, t, kind, text_of, tcase=None):
+def shrink(rn, sline, dline, store, t, kind, text_of, tcase=None, history=()):
     """greedy shrinking of (dataset, filter) keeping (or strengthening) the kind of verdict.
-    tcase: the tokens of a T line when the failing observation is the answer of a scan strategy"""
+    tcase: the tokens of a T line when the failing observation is the answer of a scan strategy (its sort clause is
+    shrunk in place); history: the earlier callers (sline, dline|None, M line) after which the line is asked"""
     def mk_line(tt):
         return q_line(store, tt, text_of) if tcase is None else t_line(tcase, tt, text_of)
 
@@ -564,7 +751,7 @@ def shrink(rn, sline, dline, store, t, kind, text_of, tcase=None):
 
     def fails(dl, tt):
         try:
-            impl, modl = rn.run([sline, dl, mk_line(tt)])
+            impl, modl = rn.run(seq_lines(history, (sline, dl, mk_line(tt))))
         except Exception:
             return False
         v = judge(impl, modl)
@@ -597,11 +784,24 @@ def shrink(rn, sline, dline, store, t, kind, text_of, tcase=None):
                 t = cand
                 changed = True
                 break
+    # the sort clause of a strategy answer: fewer fields (the first one stays: it selects the scanner and the order kind)
+    if tcase is not None and tcase[5] != "-":
+        fields = [x.strip() for x in unhex(tcase[5]).decode("utf-8").split(",")]
+        i = len(fields) - 1
+        while i >= 1:
+            cand = fields[:i] + fields[i + 1:]
+            old = tcase[5]
+            tcase[5] = ", ".join(cand).encode("utf-8").hex()
+            if try_(dline, t):
+                fields = cand
+            else:
+                tcase[5] = old
+            i -= 1
     # dataset: first try to keep only an entity of the queried store on which the two sides disagree
     stores = parse_dataset(dline.split()[1:])
     try:
         si0 = int(ROOT_OF.get(store, store))   # a child store scans the entity buckets of its parent
-        impl0, modl0 = rn.run([sline, dline, mk_line(t)])
+        impl0, modl0 = rn.run(seq_lines(history, (sline, dline, mk_line(t))))
         dids = diff_ids(impl0[-1], modl0[-1]) if tcase is None else diff_ids_t(rn.cases[-1], modl0[-1])
         for keep in ([dids[:1], dids] if len(dids) > 1 else [dids]):
             if not keep or len(stores[si0]) <= len(keep):
@@ -684,7 +884,7 @@ def main(argv):
     c = vlib.Check(PID, argv)
     c.cov["trusted_base"] = [
         "Coq 8.16.1 kernel (coqc; coqchk in the thorough tier); vm_compute in Examples only; no axioms",
-        "hand-written models Ast/{Schema,Typer,Eval,Spec,Chain}.v of ast typing/evaluation and boltz symbol resolution, row cursor, set cursors and cursor scanner",
+        "hand-written models Ast/{Schema,Typer,Eval,Spec,Chain}.v of ast typing/evaluation and boltz symbol resolution, row cursor, set cursors and cursor scanner; Ast/Session.v (query objects: Parse allocates, mutators change the caller's object)",
         "float64 modelled as bit patterns (Ast/F64.v); strconv.FormatFloat and time.MarshalText enter the theorems as Section variables; the executable model runs Ast/FmtFloat.v (shortest round-trip digits, positional layout) for FormatFloat(v,'f',-1,64), compared with strconv itself on the F lines of every run; time.MarshalText is not modelled (no time -> string coercion is generated); strings.ToUpper modelled for ASCII",
         "bbolt (sorted key iteration, Seek = first key >= target), ANTLR parser, strconv.ParseFloat/ParseInt of literals",
         "extraction (ExtrOcamlBasic only) + extraction/c01_driver.ml + drv_common.ml",
@@ -695,6 +895,7 @@ def main(argv):
         "stored field bytes are the ones the TypedBucket setters write (decoding is C13)",
         "which of the matching entities a SORTED page holds, and their order, is C02: a sorted answer is judged as a set (members of the matching set, no duplicate, as many as skip / limit leave, count = size of the matching set)",
         "no symbol links INTO a child store and no child store has a set symbol or a child store of its own (documented in design/C01.md 5b)",
+        "query objects are refined through the ast.Query interface only, with predicates parsed for the same store (design/C01.md 5d)",
     ]
     proof_ok = c.proof_step(FILES)
     model = vlib.build_model("C01")
@@ -718,6 +919,11 @@ def main(argv):
                 vlib.log("REPLAY strategy query=%s\n  case =%s\n  model=%s\n  verdict=%s" % (unhex(case.split()[9]).decode("utf-8", "replace"), " ".join(case.split()[:9]), m, v))
                 if v is not None:
                     c.violation(class_key_t(v[0], case), v[1], dict(case=lines, observed=case, model=m), no_input=(v[0] in ("accepted", "rejected", "model")))
+            if case.startswith("M "):
+                v = verdict_m(case, m)
+                vlib.log("REPLAY earlier caller: %s\n  case =%s\n  model=%s\n  verdict=%s" % (m_text(case), " ".join(case.split()[:9]), m, v))
+                if v is not None:
+                    c.violation(class_key_m(v[0], case), v[1], dict(case=lines, observed=case, model=m), no_input=(v[0] in ("accepted", "rejected", "model")))
             if case.startswith("Q"):
                 vlib.log("REPLAY filter=%s\n  impl =%s\n  model=%s\n  verdict=%s" % (unhex(case.split()[2]).decode("utf-8", "replace"), i, m, verdict(i, m)))
                 v = verdict(i, m)
@@ -758,7 +964,22 @@ def main(argv):
     strat_seen = collections.Counter()
     tsamples = []
     base_keys = set()
+    hist = []           # (sline, dline, M line) of every earlier caller of this process, in order
+    nm = 0
     for case, i, m in zip(cases, impl, modl):
+        if case.startswith("M "):
+            # an earlier caller of a session: its own answer is judged against the query it refined
+            nm += 1
+            v = verdict_m(case, m)
+            if v is not None:
+                disagreements += 1
+                pre_key = class_key_m(v[0], case)
+                found[pre_key] = found.get(pre_key, 0) + 1
+                lst = pending.setdefault(pre_key, [])
+                if len(lst) < 2:
+                    lst.append((sline, dline, case, i, m, v, len(case) + len(dline), len(hist)))
+            hist.append((sline, dline, case))
+            continue
         if case.startswith("S "):
             sline = case
             load_schema(case)
@@ -784,7 +1005,7 @@ def main(argv):
             found[pre_key] = found.get(pre_key, 0) + 1
             lst = pending.setdefault(pre_key, [])
             if len(lst) < 2 or len(case) + len(dline) < max(x[6] for x in lst):
-                lst.append((sline, dline, case, i, m, v, len(case) + len(dline)))
+                lst.append((sline, dline, case, i, m, v, len(case) + len(dline), len(hist)))
                 lst.sort(key=lambda x: x[6])
                 del lst[2:]
             continue
@@ -824,7 +1045,7 @@ def main(argv):
         found[pre_key] = found.get(pre_key, 0) + 1
         lst = pending.setdefault(pre_key, [])
         if len(lst) < 2:
-            lst.append((sline, dline, case, i, m, v, len(case) + len(dline)))
+            lst.append((sline, dline, case, i, m, v, len(case) + len(dline), len(hist)))
 
     # shrink and report: smallest instances first, at most two per class, at most 16 classes in detail
     reported = {}
@@ -833,11 +1054,26 @@ def main(argv):
         del pending[k]
     for pre_key in sorted(pending, key=lambda k: min(x[6] for x in pending[k]))[:28]:
         suffix = ("@" + pre_key.split("@", 1)[1]) if "@" in pre_key else ""
-        for (sl, dl0, case, i, m, v, _) in sorted(pending[pre_key], key=lambda x: x[6]):
+        for (sl, dl0, case, i, m, v, _, nh) in sorted(pending[pre_key], key=lambda x: x[6]):
             toks = case.split()
             store = toks[1]
             load_schema(sl)
             load_hier(sl)
+            if nh > 0:
+                # asked after earlier callers refined query objects of their own: does the answer depend on them?
+                if report_history(c, rn, harness, reported, sl, dl0, case, v, hist[:nh]):
+                    continue
+            if toks[0] == "M":
+                key = pre_key
+                if strategy_twin_key(v[0], case) in found:
+                    continue    # the scan strategy answers the plain text wrongly in the same way: reported there
+                if reported.get(key, 0) >= 2:
+                    continue
+                reported[key] = reported.get(key, 0) + 1
+                c.violation(key, "%s  [a caller that refines the query object it parsed must get the entities the refined query selects]" % v[1],
+                            dict(case=[sl, dl0, case], caller=m_text(case), observed=" ".join(toks[:9]), model=m),
+                            no_input=(v[0] in ("accepted", "rejected", "model")))
+                continue
             if toks[0] == "T":
                 # the answer of a scan strategy
                 t = p_term(P(toks[10:]))
@@ -912,9 +1148,10 @@ def main(argv):
         c.violation("C01:model-float-format", "the modelled float -> string coercion (Ast/FmtFloat.v) differs from strconv.FormatFloat(v,'f',-1,64): "
                     "bits %(bits)s strconv=%(strconv)s model=%(model)s" % dff, dict(correspondence="fmt_float_go vs strconv.FormatFloat", **dff), no_input=True)
     c.cov["float_format_lines"] = nfmt
-    c.cov["evaluations"] = nq + nt
+    c.cov["evaluations"] = nq + nt + nm
     c.cov["filter_evaluations"] = nq
     c.cov["strategy_answers"] = nt
+    c.cov["earlier_callers"] = nm
     c.cov["strategy_answers_by_kind"] = dict(strat_seen)
     c.cov["strategy_samples"] = tsamples
     c.cov["distinct_nontrivial"] = len(distinct)
@@ -937,7 +1174,13 @@ def main(argv):
                      "Scan strategies (T lines): the answer (ids, count) of QueryIds without sort / sort by id asc / desc / every sortable symbol asc / desc / several fields, "
                      "with and without skip / limit, and of QueryWithCursorC over the entities bucket or a cursor over some of its ids - bounded-exhaustive over "
                      "(store incl. child stores) x (null tests over inherited and own symbols) x sort clause x paging, plus two random strategies per random filter; "
-                     "judged by strategy_check: count = number of matching entities, ids matching / distinct / as many as skip and limit leave, the exact page for id order")
+                     "judged by strategy_check: count = number of matching entities, ids matching / distinct / as many as skip and limit leave, the exact page for id order.  "
+                     "Long sort clauses (c01_ties.go): clauses of 4-9 fields (rotations of the sortable symbols, mixed directions, id in the middle / at the end, one symbol repeated) over a dataset with twins "
+                     "(entities equal in every sortable field: values, nil markers, nothing stored) and one-field differences, x {true, no predicate, null tests} x paging x api for every store; random datasets with twins x random clauses of 4-8 fields.  "
+                     "Queries without a predicate (the empty text, sort by / skip / limit only) through every strategy and as Q lines.  "
+                     "Sequences (M lines, c01_history.go): an earlier caller parses a text, applies SetPredicate / SetSkip / SetLimit / AdoptSortFields (alone, combined, with another caller's query in between) and evaluates the object "
+                     "through QueryIdsC / QueryWithCursorC / IterateIds or not at all - its answer is judged against the refined query - then the same text is asked again on the same and on another store; "
+                     "a line that fails after M lines is replayed alone and after the minimal history (the answer must not depend on it)")
     c.cov["samples"] = samples
     try:
         c.cov["input_distribution"] = json.load(open(os.path.join(c.work, "stats.json")))
@@ -947,6 +1190,61 @@ def main(argv):
         c.violation("C01:proof", "proof obligation no longer checks: %s" % json.dumps(c.proof_broken)[:600],
                     dict(broken=c.proof_broken), no_input=True)
     return c.finish()
+
+
+
+def report_history(c, rn, harness, reported, sl, dl0, case, v, hist):
+    """a failing line that was asked after earlier callers (M lines): when it passes in a fresh process and fails after
+    (some of) them, report the dependence on the history with the minimal sequence; returns True when reported"""
+    if rn.budget <= 0 and KNOWN_CULPRITS:
+        return True     # no replays left to tell; dependences on the history are already reported
+    try:
+        found = history_dependence(rn, sl, dl0, case, hist)
+    except Exception as e:
+        vlib.log("history analysis failed: %r" % (e,))
+        found = None
+    if not found:
+        return False
+    toks = case.split()
+    store = toks[1]
+    t = None
+    try:
+        t = p_term(P(toks[3:] if toks[0] == "Q" else toks[10:] if toks[0] == "T" else parse_m(case)[2]))
+    except Exception:
+        pass
+    if reported.get(history_key(found, t), 0) >= 2:
+        return True
+    lines = seq_lines(found, (sl, dl0, case))
+    final_obs, m2, v2 = case, "", v
+    try:
+        if toks[0] in ("Q", "T"):
+            t = p_term(P(toks[3:] if toks[0] == "Q" else toks[10:]))
+
+            def text_of(tt, _orig=(term(t), toks[2] if toks[0] == "Q" else None)):
+                if _orig[1] is not None and term(tt) == _orig[0]:
+                    return _orig[1]
+                return render(harness, c, tt)
+            tcase = toks if toks[0] == "T" else None
+            dl, ts = shrink(rn, sl, dl0, store, t, v[0], text_of, tcase=tcase, history=found)
+            final = q_line(store, ts, text_of) if tcase is None else t_line(tcase, ts, text_of)
+            lines = seq_lines(found, (sl, dl, final))
+            t = ts
+        impl2, modl2 = rn.run(lines)
+        final_obs, m2 = (impl2[-1] if toks[0] == "Q" else rn.cases[-1]), modl2[-1]
+        v2 = judge_line(rn.cases[-1], impl2[-1], modl2[-1]) or v
+    except Exception:
+        pass
+    key = history_key(found, t)
+    if reported.get(key, 0) >= 2:
+        return True
+    reported[key] = reported.get(key, 0) + 1
+    qtext = unhex(toks[2] if toks[0] == "Q" else toks[9]).decode("utf-8", "replace")
+    what = ('%s  [query: "%s"] - but only after an earlier caller of the same process did: %s; asked in a fresh process the same query is '
+            "answered correctly. The entities a filter selects must be a function of the filter text and the database only "
+            "(session_history_irrelevant), not of what another caller did with the query object it parsed"
+            % (v2[1], qtext, "; then ".join(m_text(m0) for (_, _, m0) in found)))
+    c.violation(key, what, dict(case=lines, query=qtext, earlier_callers=[m_text(m0) for (_, _, m0) in found], observed=final_obs, model=m2))
+    return True
 
 
 def run_model_parallel(model, cases, work, chunk=2500):
